@@ -163,6 +163,14 @@ def n5_suppression_siblings(F, R, M, roles):
                 'queues that can be suppressed %s can all be re-enabled %s' % (sorted(dis | var), sorted(en | var)),
                 'interrupts of queue field(s) %s of %s can be suppressed (set_dev_notify(false)) but no method re-enables them (set_dev_notify(true) only on %s): '
                 'after disable/enable the device keeps suppressing used-buffer notifications for that queue' % (missing, adt.rsplit('::', 1)[1], sorted(en)))
+        # the reverse sibling: what can be enabled can be suppressed (a disable method that lost its set_dev_notify(false)
+        # leaves the driver's suppression setting un-conveyed)
+        missing2 = sorted(x for x in en if x not in dis and x not in var)
+        where2 = [w for f, v, _, w in uses if f in missing2 and v == 1]
+        R.check(not missing2, 'N5', '%s:enable-suppress-siblings' % adt, where2[0] if where2 else adt,
+                'queues that can be enabled %s can all be suppressed %s' % (sorted(en | var), sorted(dis | var)),
+                'interrupts of queue field(s) %s of %s can be enabled (set_dev_notify(true)) but no method suppresses them: the driver\'s '
+                'interrupt-suppression request never reaches the device' % (missing2, adt.rsplit('::', 1)[1]))
     R.count('suppression_drivers', n)
 
 
